@@ -15,11 +15,41 @@ Qed.
 
 Definition ec_of (t : Z * list Z * Z * Z) : eclass := let '(_, rep, mn, mx) := t in mkec rep mn mx.
 
+(* ---------- generic facts about the table look-ups (every descriptor) ---------- *)
+Lemma find_by_val_In v l k : find_by_val v l = Some k -> In (k, v) l.
+Proof.
+  induction l as [|[k' w] r IH]; cbn; [discriminate|]. destruct (Z.eqb_spec w v) as [->|].
+  - intros H; injection H as ->. now left.
+  - intros H. right. now apply IH.
+Qed.
+Lemma find_by_key_In k l v : find_by_key k l = Some v -> In (k, v) l.
+Proof.
+  induction l as [|[k' w] r IH]; cbn; [discriminate|]. destruct (list_eqb k' k) eqn:E.
+  - intros H; injection H as ->. apply list_eqb_eq in E. subst. now left.
+  - intros H. right. now apply IH.
+Qed.
+Lemma find_by_val_complete v l k : In (k, v) l -> exists k1, find_by_val v l = Some k1.
+Proof.
+  induction l as [|[k' w] r IH]; cbn [In find_by_val]; [tauto|]. intros [H|H].
+  - injection H as -> ->. rewrite Z.eqb_refl. eauto.
+  - destruct (w =? v); [eauto | now apply IH].
+Qed.
+(* EnumClass::convert(int, const char*&) delivers A key of the value (the first one, if several enumerators share the value) ... *)
+Lemma print_enum_is_key ec v k : In (k, v) (ec_entries ec) -> In (print_enum ec v, v) (ec_entries ec).
+Proof.
+  intros H. unfold print_enum. destruct (find_by_val_complete _ _ _ H) as (k1 & E). rewrite E. eapply find_by_val_In; exact E.
+Qed.
+(* ... hence THE key when no other enumerator has the value *)
+Lemma print_enum_unique ec v k : In (k, v) (ec_entries ec) ->
+  (forall k', In (k', v) (ec_entries ec) -> k' = k) -> print_enum ec v = k.
+Proof. intros H U. apply U. eapply print_enum_is_key; exact H. Qed.
+
 (* what is checked for every constant (key k, value v) of a class, for clean and stale errno:
-   prints as its key; the key, the key followed by a separator, and the decimal numeral of v all read back as v *)
+   valid; the key, the key followed by a separator, and the decimal numeral of v all read back as v
+   (that v prints as a key of v - as k itself unless an earlier enumerator has the same value - is print_enum_is_key above) *)
 Definition entry_ok (ec : eclass) (kv : list Z * Z) : bool :=
   let '(k, v) := kv in
-  list_eqb (print_enum ec v) k && ec_valid ec v &&
+  ec_valid ec v &&
   forallb (fun e => pres_eqb (parse_enum ec e k) (mkp true v (length k) e) &&
                     pres_eqb (parse_enum ec e (k ++ [def_sep; 120])) (mkp true v (length k) e) &&
                     pres_eqb (parse_enum ec e (print_signed v)) (mkp true v (length (print_signed v)) e)) [false; true].
@@ -45,7 +75,8 @@ Lemma all_classes_ok : forallb class_ok enum_classes = true.
 Proof. vm_compute. reflexivity. Qed.
 
 Theorem enum_roundtrip t k v e : In t enum_classes -> In (k, v) (ec_entries (ec_of t)) ->
-  print_enum (ec_of t) v = k /\
+  In (print_enum (ec_of t) v, v) (ec_entries (ec_of t)) /\
+  ((forall k', In (k', v) (ec_entries (ec_of t)) -> k' = k) -> print_enum (ec_of t) v = k) /\
   parse_enum (ec_of t) e k = mkp true v (length k) e /\
   parse_enum (ec_of t) e (k ++ [def_sep; 120]) = mkp true v (length k) e /\
   parse_enum (ec_of t) e (print_signed v) = mkp true v (length (print_signed v)) e /\
@@ -54,10 +85,11 @@ Proof.
   intros Ht Hkv. pose proof all_classes_ok as A. rewrite forallb_forall in A. specialize (A t Ht).
   unfold class_ok in A. apply andb_true_iff in A. destruct A as [A _]. apply andb_true_iff in A. destruct A as [_ A].
   rewrite forallb_forall in A. specialize (A (k, v) Hkv). unfold entry_ok in A.
-  apply andb_true_iff in A. destruct A as [A B]. apply andb_true_iff in A. destruct A as [A1 A2].
+  apply andb_true_iff in A. destruct A as [A2 B].
   rewrite forallb_forall in B. assert (He : In e [false; true]) by (destruct e; cbn; auto). specialize (B e He).
   apply andb_true_iff in B. destruct B as [B B3]. apply andb_true_iff in B. destruct B as [B1 B2].
-  apply list_eqb_eq in A1. apply pres_eqb_eq in B1, B2, B3. auto.
+  apply pres_eqb_eq in B1, B2, B3.
+  split; [eapply print_enum_is_key; exact Hkv|]. split; [now apply print_enum_unique|]. auto.
 Qed.
 
 Theorem enum_rejects_neighbours t v : In t enum_classes ->
@@ -80,18 +112,6 @@ Proof.
 Qed.
 
 (* ---------- soundness for every string ---------- *)
-Lemma find_by_val_In v l k : find_by_val v l = Some k -> In (k, v) l.
-Proof.
-  induction l as [|[k' w] r IH]; cbn; [discriminate|]. destruct (Z.eqb_spec w v) as [->|].
-  - intros H; injection H as ->. now left.
-  - intros H. right. now apply IH.
-Qed.
-Lemma find_by_key_In k l v : find_by_key k l = Some v -> In (k, v) l.
-Proof.
-  induction l as [|[k' w] r IH]; cbn; [discriminate|]. destruct (list_eqb k' k) eqn:E.
-  - intros H; injection H as ->. apply list_eqb_eq in E. subst. now left.
-  - intros H. right. now apply IH.
-Qed.
 
 Theorem parse_enum_sound ec e x : p_ok (parse_enum ec e x) = true ->
   let r := parse_enum ec e x in
